@@ -517,8 +517,13 @@ namespace {
   value_t top_amount(const value_t& val)
   {
     switch (val.type()) {
-    case value_t::BALANCE:
-      return (*val.as_balance().amounts.begin()).second;
+    case value_t::BALANCE: {
+      balance_t::amounts_array sorted;
+      val.as_balance().sorted_amounts(sorted);
+      if (sorted.empty())
+        return val;
+      return *sorted.front();
+    }
 
     case value_t::SEQUENCE: {
       return top_amount(*val.as_sequence().begin());
